@@ -190,6 +190,9 @@ func calleeShort(key string) string {
 // contractEnv binds a contract's parameter names to values.
 func (x *Exec) contractEnv(st *State, c *Contract, sig *types.Signature, all []Value) *Env {
 	env := &Env{eng: x.eng, st: st, vars: map[string]tv{}, pkg: x.eng.typesPkg(c.Pkg)}
+	if c.SpecPkg != "" {
+		env.pkg = x.eng.typesPkg(c.SpecPkg)
+	}
 	i := 0
 	if sig.Recv() != nil {
 		if c.RecvName != "" {
